@@ -464,6 +464,90 @@ fn free_running(v: &Verdicts, rounds: usize) -> (u64, u64, u64) {
     (writes, reads, heard)
 }
 
+// ---------------------------------------------------------------- (e) databases restored without metadata
+/// "The default for the administrative database and for databases restored without metadata": a database of any strategy
+/// is snapshotted, its metadata file is lost (a data directory written before metadata existed, or a kill during the
+/// first snapshot before the metadata is written), the node restarts: a stale versioned write is still accepted, the
+/// latest issued change is stored, the version grows and a watcher hears of it. The same on the administrative database.
+fn restored_part(v: &Verdicts) -> u64 {
+    use crate::common::node::{Node, NodeOpts};
+    let mut cases = 0u64;
+    for created_as in ["newer", "none", "arbiter"] {
+        for reclaim in [false, true] {
+            cases += 1;
+            let dir = fresh_dir("c19-restored");
+            let start = |dir: &str| -> Node {
+                let mut o = NodeOpts::simple(dir);
+                o.load_from_disk = true;
+                let n = Node::start(o);
+                n.set_role(nundb::bo::ClusterRole::Primary);
+                n
+            };
+            {
+                let mut node = start(&dir);
+                let dbs = node.dbs.clone();
+                let mut adm = Session::new();
+                adm.call(&dbs, "auth admin pwd");
+                adm.call(&dbs, &format!("create-db rs tok {}", created_as));
+                adm.call(&dbs, "use-db rs tok");
+                adm.call(&dbs, "set k v1");
+                adm.call(&dbs, "set k v2");
+                adm.call(&dbs, &format!("snapshot {} rs", reclaim));
+                node.declutter();
+                node.safe_shutdown();
+            }
+            let meta = format!("{}/rs-nun.madadata", dir);
+            if std::fs::remove_file(&meta).is_err() {
+                v.inconclusive(&format!("no metadata file at {}", meta));
+                continue;
+            }
+            if crate::c06::load_probe(&dir).is_err() {
+                continue; // start-up failures are C06's / C11's business
+            }
+            let node = start(&dir);
+            let dbs = node.dbs.clone();
+            for (db, token) in [("rs", "tok"), ("$admin", "pwd")] {
+                let mut w = Session::new();
+                w.call(&dbs, "auth admin pwd");
+                if w.call(&dbs, &format!("use-db {} {}", db, token)).is_error() {
+                    continue; // a database that did not come back is C06's business
+                }
+                let mut watcher = Session::new();
+                watcher.call(&dbs, "auth admin pwd");
+                watcher.call(&dbs, &format!("use-db {} {}", db, token));
+                watcher.call(&dbs, "watch k");
+                if db == "$admin" {
+                    w.call(&dbs, "set k v1");
+                    w.call(&dbs, "set k v2");
+                }
+                watcher.drain();
+                let (_, before) = get_safe(&mut w, &dbs, "k");
+                let r = w.call(&dbs, "set-safe k 0 v3");
+                let (val, ver) = get_safe(&mut w, &dbs, "k");
+                let notes = watcher.drain();
+                let problem = if r.is_error() {
+                    Some("versioned-write-refused")
+                } else if val != "v3" {
+                    Some("latest-issued-change-not-stored")
+                } else if ver <= before {
+                    Some("stored-version-did-not-grow")
+                } else if notes.iter().filter(|n| n.trim_end() == "changed k v3").count() != 1 {
+                    Some("watcher-not-notified-exactly-once-of-the-value-change")
+                } else {
+                    None
+                };
+                if let Some(p) = problem {
+                    v.report(
+                        json!({"check": "newer", "mode": "restored-without-metadata", "problem": p, "database": if db == "$admin" { "administrative" } else { "user" }, "created_as": created_as}),
+                        json!({"snapshot_reclaims": reclaim, "reply": r.resp, "version_before": before, "after": [val, ver], "watcher": notes}),
+                    );
+                }
+            }
+        }
+    }
+    cases
+}
+
 pub fn run(tier: &str) -> i32 {
     std::env::set_var("NUN_ELECTION_TIMEOUT", "30");
     quiet_panics();
@@ -477,6 +561,7 @@ pub fn run(tier: &str) -> i32 {
     let (r_runs, r_inconclusive) = replicated(&v, if thorough { 3000 } else { 200 }, seed());
     FINE_POINTS.store(false, std::sync::atomic::Ordering::SeqCst);
     let (f_writes, f_reads, f_heard) = free_running(&v, if thorough { 400 } else { 40 });
+    let restored_cases = restored_part(&v);
     ev.evaluations = seq_steps + c_runs + r_runs + f_writes;
     ev.distinct_nontrivial = c_nontrivial.len() as u64;
     ev.rule = format!("(a) {} sequential writes in histories of 1-6 plain / versioned writes (version below, at, above current) on 2 keys of a newer database with a watcher; (b) {} token-passing schedules of two writers (1-3 writes each, plain and versioned 0-3) on one key with a watcher, every other one with a third session reading the key; (c) {} simulated-cluster runs where two sessions on the primary write one key sequentially or concurrently (yield point between creating a change and applying it) and 1-2 secondaries replay the primary's order; (d) free-running threads: {} writes by two sessions on one watched key while a third session read it {} times and the watcher heard {} notifications; distinct_nontrivial = distinct schedules of (b) in which the two writers' operations overlap", seq_steps, c_runs, r_runs, f_writes, f_reads, f_heard);
@@ -484,6 +569,7 @@ pub fn run(tier: &str) -> i32 {
     ev.set("sequential_version_classes", json!(seq_classes.iter().cloned().collect::<Vec<_>>()));
     ev.set("concurrent_distinct_schedules", json!(c_distinct.len()));
     ev.set("replicated_runs", json!(r_runs));
+    ev.set("restarts_of_a_database_whose_metadata_file_was_lost", json!(restored_cases));
     ev.set("replicated_inconclusive", json!(r_inconclusive));
     ev.set("known_findings_seen", json!(v.known_seen()));
     ev.violations = v.violation_count();
